@@ -296,6 +296,13 @@ func buildDoc(d DocSpec) *docInst {
 			if one, ok := m["one"].(map[string]interface{}); ok {
 				m["tmap"] = map[string]map[string]interface{}{"a": one, "b": {"k": "tb"}}
 			}
+			// Go structs: by pointer, by value, in a slice, nested
+			name, _ := m["name"].(string)
+			n, _ := m["n"].(float64)
+			nest, _ := m["nest"].(map[string]interface{})
+			m["rec"] = &oracle.Rec{P: name, Q: n, Tags: []string{"a" + name, "b"}, In: nest, Sub: &oracle.Rec{P: "sub" + name, Q: n + 1}}
+			m["val"] = oracle.Rec{P: "v" + name, Q: n * 2, Tags: []string{}}
+			m["recs"] = []oracle.Rec{{P: "r1" + name, Q: 1}, {P: "r0", Q: n, Tags: []string{"t"}}, {P: "r2", Q: 0.5, In: map[string]interface{}{"k": name}}}
 		}
 	}
 	if d.Member != "" {
